@@ -33,7 +33,7 @@ func init() {
 				"commit_le": 20, "commit_be": 20, "rollback_then_overwrite": 5, "wal_restart": 5,
 				"shrink_across_block": 3, "shrink_within_cached_tail_block": 10, "spilled_beyond_commit": 3,
 				"ckpt_passive": 2, "ckpt_full": 2, "ckpt_restart": 2, "ckpt_truncate": 2, "litefs_ckpt": 2,
-				"ltx_decoded": 100, "no_advance_checked": 20, "switch_to_rollback": 20,
+				"ltx_decoded": 100, "no_advance_checked": 20, "switch_to_rollback": 20, "released_by_close": 20,
 			}
 		},
 	})
@@ -251,6 +251,12 @@ func runC03(c *core.Case) {
 			}
 		}
 		restartExpected := d.Backfilled || d.WalEnd < 32
+		if spec.Outcome == "commit" && c.Rng.IntN(8) == 0 {
+			// the writer ends without unlocking: its descriptors are closed while
+			// it holds the write lock (the commit frame is in the log, so the
+			// transaction is committed and must be captured at that release)
+			spec.ReleaseByClose = true
+		}
 		res := conn.RunWALTx(spec)
 		history = append(history, spec)
 		detail["spec"] = spec
@@ -285,7 +291,7 @@ func runC03(c *core.Case) {
 		for _, lt := range mon.AllLockTypes {
 			st := db.VerifLockState(lt).String()
 			want := "unlocked"
-			if lt.String() == "SHARED" || lt.String() == "DMS" {
+			if (lt.String() == "SHARED" || lt.String() == "DMS") && !spec.ReleaseByClose {
 				want = "shared"
 			}
 			if st != want {
@@ -297,6 +303,18 @@ func runC03(c *core.Case) {
 		}
 		if out.LTX != nil {
 			c.Count("ltx_decoded", 1)
+		}
+		if spec.ReleaseByClose {
+			c.Count("released_by_close", 1)
+			var err error
+			if conn, err = d.Open(1); err == nil {
+				err = conn.OpenWAL()
+			}
+			if err != nil {
+				c.Violate("C03/op-refused/reopen", "reopening the database after the writer's descriptors were closed: "+err.Error(), detail)
+				return
+			}
+			defer conn.Close()
 		}
 		if committed {
 			if bigEndian {
